@@ -24,6 +24,10 @@ func init() { register("C17", runC17) }
 var c17Handlers int64
 
 func runC17(c *mon.Ctx) {
+	if flagMode == "stress" {
+		c.Cases(func(i int, r *mon.Rand) { c17Stress(c, r) })
+		return
+	}
 	c.Cases(func(i int, r *mon.Rand) {
 		c17Values(c, r.Fork(1))
 		c17Conflicts(c, r.Fork(2))
@@ -532,9 +536,19 @@ func c17Conflicts(c *mon.Ctx, r *mon.Rand) {
 		}()
 		f()
 	}
+	stopWatch := c.Watchdog(60*time.Second, "no-progress(registration conflict hangs)", desc)
+	defer stopWatch()
 	run("first use of "+first, func() { use(first, tags1, rep, sc) })
 	n0 := len(errs)
 	run("second use of "+second, func() { use(second, tags2, rep, sc) })
+	// one more conflicting use after the callback has been through the first
+	// conflict (and possibly panicked, with the caller recovering): it must be
+	// handled like the first
+	tags3 := map[string]string{"k": "third"}
+	if !sameKeys {
+		tags3 = map[string]string{"yet-another": "w"}
+	}
+	run("third use, again of "+second, func() { use(second, tags3, rep, sc) })
 	if sc != nil {
 		run("report pass", func() { tally.VerifReportPass(sc) })
 	}
@@ -675,4 +689,105 @@ func c17Concurrent(c *mon.Ctx, r *mon.Rand) {
 		}
 	}
 	c.Distinct(mon.Hash64("conc", fmt.Sprint(desc), fmt.Sprint(r.U64())))
+}
+
+// c17Stress: recording goroutines, report passes and delay injection before
+// every increment; once the recorders have stopped, one more pass must leave
+// Gather() showing exactly what was recorded (counter sums, histogram sample
+// counts) - nothing may be stranded by a pass that ran next to a Record.
+func c17Stress(c *mon.Ctx, r *mon.Rand) {
+	reg := prom.NewRegistry()
+	var emu sync.Mutex
+	var regErrs []string
+	rep := tprom.NewReporter(tprom.Options{Registerer: reg, OnRegisterError: func(e error) {
+		emu.Lock()
+		regErrs = append(regErrs, e.Error())
+		emu.Unlock()
+	}})
+	so := tprom.DefaultSanitizerOpts
+	prof := mon.RandomProfile(r, []int{tally.VerifCtrBeforeAdd, tally.VerifCtrLoaded1, tally.VerifRegScopeReported, tally.VerifGaugeBetweenStores}, r.Intn(3))
+	prof.Prob[tally.VerifCtrBeforeAdd] = r.Range(50, 400)
+	inj := mon.NewDelayInjector(r.U64(), prof, false)
+	inj.Install()
+	defer inj.Uninstall()
+	root, _ := vNewRoot(tally.ScopeOptions{CachedReporter: rep, Separator: tprom.DefaultSeparator, SanitizeOptions: &so, OmitCardinalityMetrics: true}, 0, uint(r.Range(0, 3)))
+	W := r.Range(2, 5)
+	const nH = 24
+	iters := r.Range(200, 1200)
+	c.Eval(1)
+	desc := map[string]interface{}{"workers": W, "iterations": iters, "sparse_histograms_per_worker": nH}
+	stopW := c.Watchdog(300*time.Second, "no-progress", desc)
+	defer stopW()
+	hsum := make([][]int64, W)
+	csum := make([]int64, W)
+	var wg, wgP sync.WaitGroup
+	var stop int32
+	for w := 0; w < W; w++ {
+		hsum[w] = make([]int64, nH)
+		wg.Add(1)
+		wr := r.Fork(uint64(10 + w))
+		go func(w int) {
+			defer wg.Done()
+			sc := root.Tagged(map[string]string{"w": fmt.Sprint(w)})
+			ctr := sc.Counter("sc")
+			hs := make([]tally.Histogram, nH)
+			for k := range hs {
+				hs[k] = sc.Histogram(fmt.Sprintf("sh%d", k), tally.ValueBuckets{1, 2})
+			}
+			for i := 0; i < iters; i++ {
+				ctr.Inc(1)
+				csum[w]++
+				if i%4 == 0 {
+					k := wr.Intn(nH)
+					hs[k].RecordValue(1.5)
+					hsum[w][k]++
+				}
+			}
+		}(w)
+	}
+	wgP.Add(1)
+	go func() {
+		defer wgP.Done()
+		for atomic.LoadInt32(&stop) == 0 {
+			tally.VerifReportPass(root)
+		}
+	}()
+	wg.Wait()
+	atomic.StoreInt32(&stop, 1)
+	wgP.Wait()
+	atomic.StoreInt32(&inj.Off, 1)
+	tally.VerifReportPass(root)
+	if len(regErrs) > 0 {
+		c.Violation("unexpected-register-error", map[string]interface{}{"errors": regErrs, "case": desc})
+	}
+	fams, err := reg.Gather()
+	if err != nil {
+		c.Violation("gather-error", map[string]interface{}{"err": err.Error(), "case": desc})
+		return
+	}
+	gotC := map[string]float64{}
+	gotH := map[string]uint64{}
+	for _, f := range fams {
+		for _, m := range f.GetMetric() {
+			k := f.GetName() + "|" + labelsOf(m)["w"]
+			if m.GetCounter() != nil {
+				gotC[k] = m.GetCounter().GetValue()
+			}
+			if m.GetHistogram() != nil {
+				gotH[k] = m.GetHistogram().GetSampleCount()
+			}
+		}
+	}
+	for w := 0; w < W; w++ {
+		if got := gotC["sc|"+fmt.Sprint(w)]; got != float64(csum[w]) {
+			c.Violation("prometheus-value/counter", map[string]interface{}{"why": fmt.Sprintf("counter sc{w=%d} shows %v after the final pass, %d recorded", w, got, csum[w]), "case": desc})
+		}
+		for k := 0; k < nH; k++ {
+			if got := gotH[fmt.Sprintf("sh%d|%d", k, w)]; got != uint64(hsum[w][k]) {
+				c.Violation("prometheus-value/histogram", map[string]interface{}{"why": fmt.Sprintf("histogram sh%d{w=%d} shows %d samples after the final pass, %d recorded (passes ran next to the records)", k, w, got, hsum[w][k]), "case": desc})
+			}
+		}
+	}
+	c.Event("stress-series-checked", int64(W*(nH+1)))
+	c.Distinct(mon.Hash64("stress", fmt.Sprint(desc), fmt.Sprint(r.U64())))
 }
